@@ -25,7 +25,7 @@ RULE = ('(a) stateful facade histories of <= 15 calls, every get/write compared 
         'workbook); (b)/(c) a case = one (workbook, entry, hash seed / process history / thread run) translation whose sha256 is compared '
         'with the in-process one; distinct = distinct history / job JSON')
 ASSUMPTIONS = ['a change of the file content without a setter call is not generated',
-               'threads: the harness does not own the scheduler; 8 barrier-released threads with a 1 us switch interval only sample interleavings']
+               'threads: lane "threads" samples interleavings (8 barrier-released threads, 1 us switch interval); lane "sched" owns the schedule at the granularity of calls into package functions (a switch inside one function body is not generated)']
 
 
 def pool_models():
@@ -210,6 +210,8 @@ def child_main():
         for (wi, entry, safety) in job['items']:
             o = fresh(paths, {'path': wi, 'entry': entry, 'safety': safety})
             out.append(show(o))
+    elif job['kind'] in ('sched', 'measure'):
+        out = run_sched(job, paths)
     else:
         import threading
         sys.setswitchinterval(1e-6)
@@ -230,6 +232,124 @@ def child_main():
             t.join()
         out = results
     json.dump(out, sys.stdout)
+
+
+def run_sched(job, paths):
+    """Translations in threads under a schedule that the harness owns: every call into a function of the package is a possible switch
+    point; `schedule` = [[thread, number of such calls to run], ...], a thread whose turn it is not waits at its next call, threads that
+    are left over when the schedule is used up run freely.  kind 'measure': the items one after the other, answer = their call counts."""
+    import threading
+    pkg = os.path.dirname(os.path.abspath(wbk.excel2pycl.__file__)) + os.sep
+    items = job['items']
+    n = len(items)
+    sched = [list(x) for x in job.get('schedule') or []]
+    nseg = len(sched)
+    # The hook makes no call of a python function (lock methods, sum and len are C): a product under test may leave the interpreter's
+    # recursion limit below the depth a parked thread is at, and then every python call in that thread raises - also inside a lock
+    # wrapper written in python.  gates[i] is a binary signal "thread i, look again"; only the thread whose turn it is moves `pos`.
+    gates = [threading.Lock() for _ in range(n)]
+    for g in gates:
+        g.acquire()
+    state = {'pos': 0}
+    done = [False] * n
+    counts = [0] * n
+    results = [None] * n
+
+    def make_hook(i):
+        def hook(frame, event, arg):
+            if event != 'call' or not frame.f_code.co_filename.startswith(pkg):
+                return
+            counts[i] += 1
+            if not nseg:
+                return
+            stalled = 0
+            while True:
+                while state['pos'] < nseg and done[sched[state['pos']][0]]:
+                    state['pos'] += 1
+                if state['pos'] >= nseg:
+                    return
+                seg = sched[state['pos']]
+                if seg[0] == i:
+                    break
+                seen = sum(counts)
+                if gates[i].acquire(True, 5):
+                    continue
+                if sum(counts) == seen:
+                    # the thread whose turn it is makes no calls: it may be waiting for something this thread holds (an import lock,
+                    # say).  The schedule is given up - everybody runs freely - and the job is marked, not failed
+                    stalled += 1
+                    if stalled >= 3:
+                        state['pos'] = nseg
+                        state['stalled'] = True
+                        for g in gates:
+                            try:
+                                g.release()
+                            except RuntimeError:
+                                pass
+                        return
+            if seg[1] is not None:
+                seg[1] -= 1
+                if seg[1] <= 0:
+                    state['pos'] += 1
+                    for g in gates:
+                        if g is not gates[i]:
+                            try:
+                                g.release()
+                            except RuntimeError:
+                                pass
+        return hook
+
+    def work(i):
+        wi, entry, safety = items[i]
+        sys.setprofile(make_hook(i))
+        try:
+            results[i] = show(fresh(paths, {'path': wi, 'entry': entry, 'safety': safety}))
+        finally:
+            sys.setprofile(None)
+            done[i] = True
+            for g in gates:
+                if g.locked():
+                    try:
+                        g.release()
+                    except RuntimeError:
+                        pass
+    # every module of the package is imported before the threads start: a thread that is parked in the middle of a lazy import would
+    # hold the import lock that the thread whose turn it is needs
+    import importlib
+    root = os.path.dirname(pkg.rstrip(os.sep))
+    for d, _, files in sorted(os.walk(pkg)):
+        for fn in sorted(files):
+            if fn.endswith('.py'):
+                mod = os.path.relpath(os.path.join(d, fn), root)[:-3].replace(os.sep, '.')
+                importlib.import_module(mod[:-len('.__init__')] if mod.endswith('.__init__') else mod)
+    ts = [threading.Thread(target=work, args=(i,)) for i in range(n)]
+    if job['kind'] == 'measure':
+        for t in ts:
+            t.start()
+            t.join()
+        return counts
+    for t in ts:
+        t.start()
+    for t in ts:
+        t.join()
+    return results + ([['stalled']] if state.get('stalled') else [])
+
+
+def make_schedule(rnd, counts):
+    """alternating segments over 2-3 threads; the lengths are fractions of what each translation needs alone"""
+    n = len(counts)
+    sched = []
+    last = None
+    for _ in range(rnd.randint(2, 7)):
+        t = rnd.choice([x for x in range(n) if x != last])
+        frac = rnd.choice([0.0005, 0.002, 0.01, 0.03, 0.1, 0.2, 0.35, 0.5, 0.7, 0.9, 0.99])
+        sched.append([t, max(1, int(counts[t] * frac) + rnd.choice([0, 0, 1, 2, 7]))])
+        last = t
+    # then every thread to its end, one after the other, in a drawn order
+    order = list(range(n))
+    rnd.shuffle(order)
+    sched += [[t, None] for t in order]
+    return sched
 
 
 def run_child(job, hashseed):
@@ -269,15 +389,15 @@ def run_job(case, paths):
     job = {**case['job'], 'paths': paths}
     res = run_child(job, case['hashseed'])
     fails = []
-    if job['kind'] == 'sequence':
-        pairs = zip(job['items'], res)
+    if job['kind'] in ('sequence', 'sched'):
+        pairs = list(zip(job['items'], res))
     else:
         pairs = [(it, r) for thread in res for (it, r) in thread]
     for it, r in pairs:
         want = show(fresh(paths, {'path': it[0], 'entry': it[1], 'safety': it[2]}))
         if r != want:
             fails.append({'case': {'job': {k: v for k, v in case['job'].items()}, 'hashseed': case['hashseed']}, 'expected': want, 'actual': r,
-                          'relation': 'text-identical-across-' + ('threads' if job['kind'] == 'threads' else 'processes-and-hash-seeds'),
+                          'relation': 'text-identical-across-' + ('threads' if job['kind'] in ('threads', 'sched') else 'processes-and-hash-seeds'),
                           'bucket': job['kind'] + ':' + ('text-differs' if r[0] == 'text' and want[0] == 'text' else 'outcome-differs'),
                           'extra': {'item': it}})
             break
@@ -333,6 +453,8 @@ def plan(tier):
         specs.append({'kind': 'matrix', 'shard': 100 + j, 'hashseed': s, 'order': j})
     for j in range(4 if tier == 'quick' else 24):
         specs.append({'kind': 'threads', 'shard': 200 + j, 'hashseed': j % 3, 'repeat': 5 if tier == 'quick' else 12})
+    for j in range(6 if tier == 'quick' else 16):
+        specs.append({'kind': 'sched', 'shard': 300 + j, 'hashseed': j % 3, 'rounds': 40 if tier == 'quick' else 600})
     return specs
 
 
@@ -350,6 +472,25 @@ def run_shard(spec, rec):
     paths = make_pool(env.tmpdir())
     items = matrix_items()
     rnd = random.Random(env.derive_seed('c09', spec['shard']))
+    if spec['kind'] == 'sched':
+        # interleavings chosen by the harness: call counts of every item alone first, then schedules cut at fractions of them
+        counts = run_child({'kind': 'measure', 'items': items, 'paths': paths}, spec['hashseed'])
+        deep_idx = [i for i, it in enumerate(items) if it[0] == 5]
+        for _ in range(spec['rounds']):
+            if rec.out_of_time():
+                break
+            k = rnd.choice([2, 2, 2, 3])
+            idx = [rnd.randrange(len(items)) for _ in range(k)]
+            if rnd.random() < 0.6:
+                idx[rnd.randrange(k)] = rnd.choice(deep_idx)
+            job = {'kind': 'sched', 'items': [items[i] for i in idx], 'schedule': make_schedule(rnd, [counts[i] for i in idx])}
+            case = {'job': job, 'hashseed': spec['hashseed']}
+            fs = run_job(case, paths)
+            rec.case(case, True, ['lane:sched', f'threads:{k}', f'segments:{len(job["schedule"])}', 'deep' if any(items[i][0] == 5 for i in idx) else 'shallow'],
+                     sample={'kind': 'sched', 'items': job['items'], 'schedule': job['schedule']})
+            for f in fs:
+                rec.fail(**f)
+        return
     if spec['kind'] == 'matrix':
         # cold (one item per child) for a few, then one child that runs everything in a shuffled order (history leakage)
         order = list(items)
